@@ -92,5 +92,7 @@ def make(name):
 # tables with ONE ragged column: the proof goes through as for the node table.  For the tables with two or three
 # ragged columns (sites, mutations, provenances, individuals) the preservation of the byte clause of one column was left
 # open by z3 and cvc5 within the budgets (the same template; nothing refuted): not registered, hence not claimed.
-for _n in ("edges", "migrations", "populations"):
+# (the migration table - six fixed columns - goes through on an idle machine but its byte clause needed the second
+# look or stayed open when the machine was busy: an unstable proof is not worth a flaky check, so it is not registered)
+for _n in ("edges", "populations"):
     make(_n)
